@@ -143,7 +143,7 @@ package diff
 //@     invariant !(stop1 && stop2) ==> fwdFrontier.X < revFrontier.X && fwdFrontier.Y < revFrontier.Y
 //@     invariant [C17] the-forward-scan-gives-up-towards-the-top-right-only-outside-the-search-window: stop1 && !stop2 ==> !(fwdFrontier.X + ((i + 1) / 2 - 1) < revPath.point.X && fwdFrontier.Y - ((i + 1) / 2 - 1) >= fwdPath.point.Y)
 //@     invariant [C17] the-forward-scan-gives-up-towards-the-bottom-left-only-outside-the-search-window: stop2 && !stop1 ==> !(fwdFrontier.Y - (0 - i / 2) < revPath.point.Y && fwdFrontier.X + (0 - i / 2) >= fwdPath.point.X)
-//@     invariant [C17] no-equal-pair-on-the-scanned-diagonal-is-overlooked: !(stop1 && stop2) ==> forall z int :: 0 - i / 2 <= z && z <= (i + 1) / 2 - 1 && fwdPath.point.X <= fwdFrontier.X + z && fwdFrontier.X + z < revPath.point.X && fwdPath.point.Y <= fwdFrontier.Y - z && fwdFrontier.Y - z < revPath.point.Y ==> !rEqual(eqRes(f, fwdFrontier.X + z, fwdFrontier.Y - z))
+//@     invariant [C17] no-equal-pair-on-the-scanned-diagonal-is-overlooked: !(stop1 && stop2) ==> forall z int {eqRes(f, fwdFrontier.X + z, fwdFrontier.Y - z)} :: 0 - i / 2 <= z && z <= (i + 1) / 2 - 1 && fwdPath.point.X <= fwdFrontier.X + z && fwdFrontier.X + z < revPath.point.X && fwdPath.point.Y <= fwdFrontier.Y - z && fwdFrontier.Y - z < revPath.point.Y ==> !rEqual(eqRes(f, fwdFrontier.X + z, fwdFrontier.Y - z))
 //@     invariant searchBudget >= 0
 //@     invariant (revFrontier.X + revFrontier.Y) - (fwdFrontier.X + fwdFrontier.Y) <= variant0
 //@     decreases 4 * searchBudget + 2 * (ite(stop1, 0, 1) + ite(stop2, 0, 1)) + ite(stop1 && !stop2 && i % 2 == 0, 1, 0) + ite(stop2 && !stop1 && i % 2 == 1, 1, 0)
@@ -176,7 +176,7 @@ package diff
 //@     invariant !(stop1 && stop2) ==> fwdFrontier.X < revFrontier.X && fwdFrontier.Y < revFrontier.Y
 //@     invariant [C17] the-reverse-scan-gives-up-towards-the-bottom-left-only-outside-the-search-window: stop1 && !stop2 ==> !(fwdPath.point.X < revFrontier.X - ((i + 1) / 2 - 1) && revFrontier.Y + ((i + 1) / 2 - 1) <= revPath.point.Y)
 //@     invariant [C17] the-reverse-scan-gives-up-towards-the-top-right-only-outside-the-search-window: stop2 && !stop1 ==> !(fwdPath.point.Y < revFrontier.Y + (0 - i / 2) && revFrontier.X - (0 - i / 2) <= revPath.point.X)
-//@     invariant [C17] no-equal-pair-on-the-scanned-diagonal-is-overlooked: !(stop1 && stop2) ==> forall z int :: 0 - i / 2 <= z && z <= (i + 1) / 2 - 1 && fwdPath.point.X < revFrontier.X - z && revFrontier.X - z <= revPath.point.X && fwdPath.point.Y < revFrontier.Y + z && revFrontier.Y + z <= revPath.point.Y ==> !rEqual(eqRes(f, revFrontier.X - z - 1, revFrontier.Y + z - 1))
+//@     invariant [C17] no-equal-pair-on-the-scanned-diagonal-is-overlooked: !(stop1 && stop2) ==> forall z int {eqRes(f, revFrontier.X - z - 1, revFrontier.Y + z - 1)} :: 0 - i / 2 <= z && z <= (i + 1) / 2 - 1 && fwdPath.point.X < revFrontier.X - z && revFrontier.X - z <= revPath.point.X && fwdPath.point.Y < revFrontier.Y + z && revFrontier.Y + z <= revPath.point.Y ==> !rEqual(eqRes(f, revFrontier.X - z - 1, revFrontier.Y + z - 1))
 //@     invariant searchBudget >= 0
 //@     invariant (revFrontier.X + revFrontier.Y) - (fwdFrontier.X + fwdFrontier.Y) <= variant0 - 1
 //@     decreases 4 * searchBudget + 2 * (ite(stop1, 0, 1) + ite(stop2, 0, 1)) + ite(stop1 && !stop2 && i % 2 == 0, 1, 0) + ite(stop2 && !stop1 && i % 2 == 1, 1, 0)
